@@ -72,10 +72,10 @@ Theorem staircase_source_translator_vm : forall channels s prog gcs fuel g0 g',
   build_program s = Ok prog -> prog <> [] ->
   gen_to_increment_commands (map embed_node prog) = Ok gcs ->
   gen_set_commands (gen_vm_init channels) gcs = Ok g0 ->
-  gen_run_n fuel g0 = Some (Ok g') ->
+  gen_run fuel g0 = Some (Ok g') ->
   plays (gvm_history g') (fst (staircase s)) = true /\ Qeq_bool (gvm_time g') (snd (staircase s)) = true.
 Proof.
-  intros channels s prog gcs fuel g0 g' Hwf Hg Hb Hne Ht Hset Hrun.
+  intros channels s prog gcs fuel g0 g' Hwf Hg Hb Hne Ht Hset Hrun. rewrite gen_run_eq in Hrun.
   rewrite gen_to_increment_commands_eq in Ht. destruct (translate prog) as [cs|e] eqn:E; [|discriminate].
   injection Ht as <-. rewrite gen_vm_init_eq in Hset.
   exact (staircase_source_vm channels s prog cs fuel g0 g' Hwf Hg Hb Hne E Hset Hrun).
@@ -87,7 +87,7 @@ Definition source_tr_vm_demo (s : src) (channels fuel : nat) : option nat :=
       match prog with [] => None | _ =>
       match gen_to_increment_commands (map embed_node prog) with
       | Ok gcs => match gen_set_commands (gen_vm_init channels) gcs with
-                  | Ok g0 => match gen_run_n fuel g0 with Some (Ok g') => Some (length (gvm_history g')) | _ => None end
+                  | Ok g0 => match gen_run fuel g0 with Some (Ok g') => Some (length (gvm_history g')) | _ => None end
                   | Err _ => None
                   end
       | Err _ => None
@@ -97,14 +97,14 @@ Definition source_tr_vm_demo (s : src) (channels fuel : nat) : option nat :=
 
 Lemma source_tr_vm_demo_sound : forall s channels fuel n, source_tr_vm_demo s channels fuel = Some n ->
   exists prog gcs g0 g', build_program s = Ok prog /\ prog <> [] /\ gen_to_increment_commands (map embed_node prog) = Ok gcs /\
-    gen_set_commands (gen_vm_init channels) gcs = Ok g0 /\ gen_run_n fuel g0 = Some (Ok g') /\ length (gvm_history g') = n.
+    gen_set_commands (gen_vm_init channels) gcs = Ok g0 /\ gen_run fuel g0 = Some (Ok g') /\ length (gvm_history g') = n.
 Proof.
   intros s channels fuel n H. unfold source_tr_vm_demo in H.
   destruct (build_program s) as [prog|] eqn:E1; [|discriminate H].
   destruct prog as [|n0 prog]; [discriminate H|].
   destruct (gen_to_increment_commands (map embed_node (n0 :: prog))) as [gcs|] eqn:E2; [|discriminate H].
   destruct (gen_set_commands (gen_vm_init channels) gcs) as [g0|] eqn:E3; [|discriminate H].
-  destruct (gen_run_n fuel g0) as [[g'|]|] eqn:E4; try discriminate H.
+  destruct (gen_run fuel g0) as [[g'|]|] eqn:E4; try discriminate H.
   exists (n0 :: prog), gcs, g0, g'. split; [reflexivity|]. split; [discriminate|]. split; [exact E2|]. split; [exact E3|].
   split; [exact E4|]. injection H as H. exact H.
 Qed.
@@ -114,5 +114,75 @@ Proof. vm_compute. reflexivity. Qed.
 
 Lemma staircase_source_translator_vm_nonvacuous :
   exists prog gcs g0 g', build_program wit_good = Ok prog /\ prog <> [] /\ gen_to_increment_commands (map embed_node prog) = Ok gcs /\
-    gen_set_commands (gen_vm_init 2) gcs = Ok g0 /\ gen_run_n 1000 g0 = Some (Ok g') /\ length (gvm_history g') = 21%nat.
+    gen_set_commands (gen_vm_init 2) gcs = Ok g0 /\ gen_run 1000 g0 = Some (Ok g') /\ length (gvm_history g') = 21%nat.
 Proof. exact (source_tr_vm_demo_sound wit_good 2 1000 21 source_tr_vm_demo_eq). Qed.
+
+(* Round 4: builder, translator and VM all taken from the source; only the driver (what the pulse templates call on the builder)
+   and the positional reading of the named source (to_src) are written by hand. *)
+Theorem staircase_source_all : forall channels ns b prog gcs fuel g0 g',
+  src_wf channels (to_src [] ns) = true -> guard_C17_key_collision (to_src [] ns) = true ->
+  drive ns gen_builder_init = Ok b -> gen_to_program b = Ok (Some prog) ->
+  gen_to_increment_commands prog = Ok gcs ->
+  gen_set_commands (gen_vm_init channels) gcs = Ok g0 ->
+  gen_run fuel g0 = Some (Ok g') ->
+  plays (gvm_history g') (fst (staircase (to_src [] ns))) = true /\ Qeq_bool (gvm_time g') (snd (staircase (to_src [] ns))) = true.
+Proof.
+  intros channels ns b prog gcs fuel g0 g' Hwf Hg Hd Hp Ht Hset Hrun.
+  pose proof (builder_program_eq ns) as H. destruct (build_program (to_src [] ns)) as [nodes|e] eqn:Eb; [|contradiction].
+  destruct H as (b0 & Hd0 & Hp0). rewrite Hd0 in Hd. injection Hd as <-. rewrite Hp0 in Hp.
+  destruct nodes as [|n0 nodes]; [discriminate|]. injection Hp as <-.
+  eapply staircase_source_translator_vm; eauto. discriminate.
+Qed.
+
+Definition source_all_demo (ns : nsrc) (channels fuel : nat) : option nat :=
+  match drive ns gen_builder_init with
+  | Ok b => match gen_to_program b with
+            | Ok (Some prog) =>
+                match gen_to_increment_commands prog with
+                | Ok gcs => match gen_set_commands (gen_vm_init channels) gcs with
+                            | Ok g0 => match gen_run fuel g0 with Some (Ok g') => Some (length (gvm_history g')) | _ => None end
+                            | Err _ => None
+                            end
+                | Err _ => None
+                end
+            | _ => None
+            end
+  | Err _ => None
+  end.
+
+Lemma source_all_demo_sound : forall ns channels fuel n, source_all_demo ns channels fuel = Some n ->
+  exists b prog gcs g0 g', drive ns gen_builder_init = Ok b /\ gen_to_program b = Ok (Some prog) /\
+    gen_to_increment_commands prog = Ok gcs /\ gen_set_commands (gen_vm_init channels) gcs = Ok g0 /\
+    gen_run fuel g0 = Some (Ok g') /\ length (gvm_history g') = n.
+Proof.
+  intros ns channels fuel n H. unfold source_all_demo in H.
+  destruct (drive ns gen_builder_init) as [b|] eqn:E1; [|discriminate H].
+  destruct (gen_to_program b) as [[prog|]|] eqn:E2; try discriminate H.
+  destruct (gen_to_increment_commands prog) as [gcs|] eqn:E3; [|discriminate H].
+  destruct (gen_set_commands (gen_vm_init channels) gcs) as [g0|] eqn:E4; [|discriminate H].
+  destruct (gen_run fuel g0) as [[g'|]|] eqn:E5; try discriminate H.
+  exists b, prog, gcs, g0, g'. repeat split; auto. injection H as H. exact H.
+Qed.
+
+(* for j in range(3): (for i in range(5, 1, -2): hold(1, a = 1/4 + i/2 - j/4, b = 2*j)); rest; (rest; pulse) * 2, index i = 0, j = 1 *)
+Definition wit_named : nsrc :=
+  NSSeq [NSIter 1 0 3 1 (NSSeq [NSIter 0 5 1 (-2) (NSHold 1 [NVExpr (1 # 4) [(0%nat, 1 # 2); (1%nat, (-1) # 4)]; NVExpr 0 [(1%nat, 2 # 1)]]);
+                               NSHold (1 # 2) [NVNum (1 # 2); NVExpr 1 [(1%nat, 1 # 1)]]]);
+         NSHold 1 [NVNum (1 # 8); NVNum (3 # 8)];
+         NSRep 2 (NSSeq [NSHold 1 [NVNum (1 # 8); NVNum (3 # 8)]; NSHold 2 [NVNum (1 # 4); NVNum ((-3) # 8)]])].
+
+Lemma source_all_demo_eq : source_all_demo wit_named 2 1000 = Some 14%nat.
+Proof. vm_compute. reflexivity. Qed.
+
+Lemma wit_named_ok : src_wf 2 (to_src [] wit_named) = true /\ guard_C17_key_collision (to_src [] wit_named) = true.
+Proof. vm_compute. split; reflexivity. Qed.
+
+Lemma staircase_source_all_nonvacuous :
+  src_wf 2 (to_src [] wit_named) = true /\ guard_C17_key_collision (to_src [] wit_named) = true /\
+  exists b prog gcs g0 g', drive wit_named gen_builder_init = Ok b /\ gen_to_program b = Ok (Some prog) /\
+    gen_to_increment_commands prog = Ok gcs /\ gen_set_commands (gen_vm_init 2) gcs = Ok g0 /\
+    gen_run 1000 g0 = Some (Ok g') /\ length (gvm_history g') = 14%nat.
+Proof.
+  destruct wit_named_ok as [A B]. split; [exact A|]. split; [exact B|].
+  exact (source_all_demo_sound wit_named 2 1000 14 source_all_demo_eq).
+Qed.
